@@ -20,7 +20,7 @@ import (
 var Registry = map[string]func(tier string) []fw.Scenario{}
 
 func sub[T any](o ro.Observable[T], rec *h.Rec) ro.Subscription {
-	return o.Subscribe(h.Observer[T](rec))
+	return o.SubscribeWithContext(ctxWith(), h.Observer[T](rec))
 }
 
 // recSet holds the recorders of one execution (the outer one first, then inner windows/groups).
